@@ -10,12 +10,12 @@ EXPLANATION = (
     "preconditions P1/P2 of the relabel walk hold at every call; nested edge edits rewrite ids exactly below the relabelled node "
     "(clause 'track-ids-rewritten-exactly...', which is the frame statement of the property). Local => global ('same id iff same "
     "segment') is bridge lemma M2 (Lean). The relabel walk TrackAnnotator._handle_update_track_ids itself is PROVED against its contract (nested BFS loops, 9+ invariants over ghost visited/frontier sets, "
-    "lemma M3'). BOUNDED STAND-INS (not proofs): the lookup bookkeeping at the end of the walk, and bulk assignment at construction, checked natively on every forest up to the stated bound.")
+    "lemma M3'). BOUNDED STAND-IN (not a proof): bulk assignment at construction, checked natively on every forest up to the stated bound.")
 ASSUMPTIONS = ["the tracklet feature is enabled (otherwise edits do not maintain ids at all)",
                "undo/redo: covered through C01 (inverse restores ids) and C02 (history lands on timeline states)"]
 LEMMAS = ["M2 (T1&T2 => same id iff same segment)", "M2' segment facts used as hypotheses of the entry state and after nested edits",
           "M3 facts of the descendant closure, monotone under edge removal"]
-NOT_UNDER_CONTRACT = ["TrackAnnotator._update_tracklet_bookkeeping/_update_lineage_bookkeeping called by the walk (bounded stand-in; they do not touch node attributes)", "TrackAnnotator._assign_tracklet_ids (bounded stand-in)"]
+NOT_UNDER_CONTRACT = ["TrackAnnotator._assign_tracklet_ids (bounded stand-in)"]
 
 
 def units(tier):
